@@ -20,6 +20,10 @@ type Layout struct {
 	AnnoOwnLine  int  // chance in 10 that an annotation gets its own line
 	LeadingBlank int  // blank lines before the package line (0-3)
 	CRLF         bool // lines end in \r\n (a Windows checkout)
+	LongComment  bool // a `//` comment line longer than 4096 bytes (declaration-like text in it) between members
+	OneLine      bool // the whole type body is written on one line (generated code), usually longer than 4096 bytes
+	NameNL       int  // chance in 40 that a callee / declared method name ends its line (the parenthesis follows on the next)
+	AnnoLate     int  // chance in 10 that annotations are written after the first keyword modifier (`public @Service class X`)
 }
 
 func RandomLayout(r *run.Rand, multiByte bool) Layout {
@@ -34,6 +38,13 @@ func RandomLayout(r *run.Rand, multiByte bool) Layout {
 		WrapParams:   r.Chance(1, 3),
 		AnnoOwnLine:  r.PickInt(10, 5, 0),
 		LeadingBlank: r.Intn(3),
+		LongComment:  r.Chance(1, 12),
+		NameNL:       r.PickInt(0, 0, 1, 4),
+		AnnoLate:     r.PickInt(0, 0, 2, 6),
+	}
+	if r.Chance(1, 25) {
+		l.OneLine = true
+		l.StmtJoin, l.MemberJoin, l.Blank, l.Comments, l.BraceNL, l.AnnoOwnLine, l.WrapParams, l.NameNL = 10, 10, 0, 0, false, 0, false, 0
 	}
 	return l
 }
@@ -196,6 +207,58 @@ func (w *writer) annotations(as []Annotation) {
 	}
 }
 
+// annosAndMods writes annotations and keyword modifiers; with Layout.AnnoLate some annotations follow the first
+// modifier, which Java allows (`public @Service("orders") class X`, `public @Override void f()`).
+func (w *writer) annosAndMods(as []Annotation, mods []string) {
+	if len(as) > 0 && len(mods) > 0 && w.r.Chance(w.lay.AnnoLate, 10) {
+		k := w.r.Intn(len(as)) // annotations written first
+		w.annotations(as[:k])
+		w.s(mods[0] + " ")
+		for _, a := range as[k:] {
+			w.annotation(a)
+			w.s(" ")
+		}
+		for _, m := range mods[1:] {
+			w.s(m + " ")
+		}
+		return
+	}
+	w.annotations(as)
+	for _, m := range mods {
+		w.s(m + " ")
+	}
+}
+
+// longComment writes one `//` line of more than 4096 bytes whose text looks like declarations and calls.
+func (w *writer) longComment() {
+	var sb strings.Builder
+	sb.WriteString("// generated:")
+	n := 4200 + w.r.Intn(5000)
+	for i := 0; sb.Len() < n; i++ {
+		if w.lay.MultiByte && w.r.Chance(1, 5) {
+			sb.WriteString(" " + w.r.Pick(mbWords))
+		}
+		sb.WriteString(" public int ghost" + itoa(i) + "(int a) { return helper" + itoa(i) + ".run(a); }")
+	}
+	w.fresh()
+	w.s(sb.String())
+	w.mustNL = true
+}
+
+// nameGap writes what stands between a method name and its opening parenthesis.
+func (w *writer) nameGap() {
+	if w.r.Chance(w.lay.NameNL, 40) {
+		w.nl()
+		w.ind()
+		w.s(w.lay.Indent)
+		return
+	}
+	if w.r.Chance(1, 12) {
+		// blanks or a comment between the identifier and its parenthesis
+		w.s(w.r.Pick([]string{" ", "  ", " /* c */ ", "\t"}))
+	}
+}
+
 func (w *writer) openBrace() {
 	if w.lay.BraceNL {
 		w.nl()
@@ -247,10 +310,7 @@ func RenderFile(r *run.Rand, f *File, lay Layout) {
 		w.fresh()
 	}
 	t.DeclLine = w.line
-	w.annotations(t.Annotations)
-	for _, m := range t.Modifiers {
-		w.s(m + " ")
-	}
+	w.annosAndMods(t.Annotations, t.Modifiers)
 	if t.Kind == "Interface" {
 		w.s("interface ")
 	} else {
@@ -270,7 +330,14 @@ func RenderFile(r *run.Rand, f *File, lay Layout) {
 	}
 	w.openBrace()
 	w.depth++
+	longAt := -1
+	if lay.LongComment && len(t.Members) > 0 {
+		longAt = r.Intn(len(t.Members))
+	}
 	for i, m := range t.Members {
+		if i == longAt {
+			w.longComment()
+		}
 		if i == 0 {
 			w.sep(lay.MemberJoin)
 		} else {
@@ -315,10 +382,7 @@ func (w *writer) method(m *Method, inInterface bool) {
 	w.curMethod = m
 	m.Sites = nil
 	m.DeclLine = w.line
-	w.annotations(m.Annotations)
-	for _, mod := range m.Modifiers {
-		w.s(mod + " ")
-	}
+	w.annosAndMods(m.Annotations, m.Modifiers)
 	if m.TypeParams != "" {
 		w.s(m.TypeParams + " ")
 	}
@@ -327,6 +391,11 @@ func (w *writer) method(m *Method, inInterface bool) {
 	}
 	m.NameLine, m.NameCol, m.NameByteOff = w.line, w.col, w.off
 	w.s(m.Name)
+	if w.r.Chance(w.lay.NameNL, 40) {
+		w.nl()
+		w.ind()
+		w.s(w.lay.Indent)
+	}
 	w.s("(")
 	wrap := w.lay.WrapParams && len(m.Params) >= 2 && w.r.Bool()
 	for i, p := range m.Params {
@@ -541,10 +610,7 @@ func (w *writer) expr(e *Expr) {
 		}
 		w.plant(e.Site)
 		w.s(e.Site.Name)
-		if w.r.Chance(1, 12) {
-			// blanks or a comment between the callee identifier and its parenthesis
-			w.s(w.r.Pick([]string{" ", "  ", " /* c */ ", "\t"}))
-		}
+		w.nameGap()
 		w.args(e.Args)
 	case "new":
 		w.s("new ")
